@@ -22,12 +22,12 @@ THEOREMS = [
     'Vakt.C05.and_ok_iff', 'Vakt.C05.and_raises_iff', 'Vakt.C05.and_nil', 'Vakt.C05.or_ok_true_iff',
     'Vakt.C05.or_nil', 'Vakt.C05.and_perm', 'Vakt.C05.or_perm_noraise', 'Vakt.C05.de_morgan',
     'Vakt.C05.string_rules_nonstr', 'Vakt.C05.string_rules_cs', 'Vakt.C05.string_rules_ci',
-    'Vakt.C05.cidr_contains_iff', 'Vakt.C05.inq_match_field', 'Vakt.C05.inq_match_attr', 'Vakt.C05.inq_none',
+    'Vakt.C05.cidr_contains_iff', 'Vakt.C05.cidr_version_mismatch', 'Vakt.C05.inq_match_field', 'Vakt.C05.inq_match_attr', 'Vakt.C05.inq_none',
     'Vakt.Re.accepts_iff', 'Vakt.Re.matchesPrefix_iff', 'Vakt.Re.acceptsDollar_iff',
 ]
 FLOOR = {'quick': 500, 'thorough': 5000}
 ASSUMPTIONS = [
-    'RegexMatch outside the modelled regex subset, str() of float/list/dict, IPv6 and netmask-style CIDR arguments, '
+    'RegexMatch outside the modelled regex subset, str() of float/list/dict, non-str CIDR arguments, '
     'callables offered to Truthy/Falsy: judged by the direct Python oracle only (counted as unmodelled)',
     'case folding: the model uses a per-character table regenerated from the running CPython; U+03A3 (final-sigma '
     'rule) is excluded from the alphabet',
@@ -288,7 +288,7 @@ def gen_case(rng):
         elif c < 0.6:
             inq['resource'] = pick(rng, what) if isinstance(what, list) and what else inq['resource']
     kinds = None
-    if isinstance(what, str) and re.match(r'^[\d.]+$', what) and rng.random() < 0.6:
+    if isinstance(what, str) and (re.match(r'^[\d.]+$', what) or ':' in what) and rng.random() < 0.6:
         kinds = ['cidr', 'cidr', 'cidr', 'streq', 'eq', 'in']
     rule = gen_rule(rng, what, inq, depth=pick(rng, [0, 0, 1, 2, 3, 4]), kinds=kinds)
     return rule, what, inq
